@@ -110,11 +110,12 @@ theorem prep_short_panics :
 /-- F9i: an out-of-range `log_blowup` parameter reaches `two_adic_generator` (corpus f9i). -/
 theorem log_blowup_panics : verifyUni { e0 with logBlowup := 28 } fib = .panic := by decide
 
-/-- F9p: a commitment round whose LDE height is below the cap height — `open_input` passes only
-the upper `batchHeight` index bits, `verify_batch_circuit` subtracts the cap height from their
-number (corpus f9p: `degree_bits = 0`, `log_blowup = 0`, caps of 2 roots). -/
+/-- F9p (fixed by bd209ac; regression record): a commitment round whose LDE height is below the cap
+height — `open_input` passes only the upper `batchHeight` index bits and `verify_batch_circuit`
+now returns `InvalidDimension` instead of subtracting the cap height from their number (corpus
+f9p: `degree_bits = 0`, `log_blowup = 0`, caps of 2 roots). -/
 theorem domain_below_cap_panics :
-    verifyUni { envFib 1 with logBlowup := 0 } { honestFib 2 with degreeBits := 0 } = .panic := by
+    verifyUni { envFib 1 with logBlowup := 0 } { honestFib 2 with degreeBits := 0 } = .err := by
   decide
 
 /-- F9g: a proof with one of the two FRI queries dropped is accepted — the builder has no
